@@ -73,6 +73,18 @@ def sweep(ctx, n):
                     ax = [magpy.magnet.CylinderSegment(dimension=(r1, r2, zc, 0, 360), polarization=pol, position=(0, 0, -h / 2 + zc / 2)),
                           magpy.magnet.CylinderSegment(dimension=(r1, r2, h - zc, 0, 360), polarization=pol, position=(0, 0, h / 2 - (h - zc) / 2))]
                     err = max(err, rel(get(magpy.Collection(*ax), obs[:3]), ref[:3]))
+                # the same parts in ONE joint call (list, per-source output), proper segments listed before and after a full ring:
+                # every part in the batch equals the part evaluated alone
+                zc = nps.uniform(0.3, 0.7) * h
+                ring = magpy.magnet.CylinderSegment(dimension=(max(r1, 0.2 * r2), r2, zc, 0, 360), polarization=pol, position=(0, 0, 2.5 * h))
+                solid = magpy.magnet.CylinderSegment(dimension=(0, 0.5 * r2, zc, 0, 360), polarization=pol, position=(0, 0, -2.5 * h))
+                parts = list(segs) + [ring, solid]
+                rng.shuffle(parts)
+                for p_ in parts[:2]:
+                    p_.rotate_from_angax(float(nps.uniform(20, 160)), "z")
+                joint = get(parts, obs, squeeze=False)[:, 0, 0]
+                for j_, p_ in enumerate(parts):
+                    err = max(err, rel(joint[j_], get(p_, obs)))
             elif kind == "segment-angle-turns":
                 # the same angular range written one or two full turns away is the same body
                 r2, h = nps.uniform(0.5, 1.5), nps.uniform(0.5, 2)
